@@ -598,55 +598,58 @@ Proof.
 Qed.
 
 (* ---------------------------------------------------------------------------------------------------- *)
-(* C13: the status of an accepted DAG is serialisable - outside the class of F13f                         *)
+(* C13: the status of an accepted DAG is serialisable (full statement since fix 667fb54)                  *)
 (* ---------------------------------------------------------------------------------------------------- *)
+(* induction over untyped trees (nested through lists and lists of pairs) *)
+Section yv_induction.
+  Variable P : yv -> Prop.
+  Hypothesis Hnull : P VNull.
+  Hypothesis Hbool : forall b, P (VBool b).
+  Hypothesis Hint : forall z, P (VInt z).
+  Hypothesis Hfloat : forall k r t, P (VFloat k r t).
+  Hypothesis Hstr : forall s, P (VStr s).
+  Hypothesis Hlist : forall l, Forall P l -> P (VList l).
+  Hypothesis Hmap : forall m, Forall (fun kv => P (fst kv) /\ P (snd kv)) m -> P (VMap m).
+  Fixpoint yv_ind2 (v : yv) : P v :=
+    match v with
+    | VNull => Hnull
+    | VBool b => Hbool b
+    | VInt z => Hint z
+    | VFloat k r t => Hfloat k r t
+    | VStr s => Hstr s
+    | VList l => Hlist l ((fix go (l : list yv) : Forall P l :=
+                             match l with
+                             | [] => Forall_nil P
+                             | x :: r => Forall_cons x (yv_ind2 x) (go r)
+                             end) l)
+    | VMap m => Hmap m ((fix go (m : list (yv * yv)) : Forall (fun kv => P (fst kv) /\ P (snd kv)) m :=
+                           match m with
+                           | [] => Forall_nil _
+                           | kv :: r => Forall_cons kv (conj (yv_ind2 (fst kv)) (yv_ind2 (snd kv))) (go r)
+                           end) m)
+    end.
+End yv_induction.
+
+(* what convertValue lets through, json.Marshal encodes *)
+Lemma conv_ok_json : forall v, conv_ok v = true -> json_conv v = true.
+Proof.
+  induction v using yv_ind2; simpl; auto.
+  - intros Hc. rewrite forallb_forall in Hc. apply forallb_forall. intros x Hx.
+    rewrite Forall_forall in H. apply H; auto.
+  - intros Hc. rewrite forallb_forall in Hc. apply forallb_forall. intros kv Hkv.
+    rewrite Forall_forall in H. destruct (H kv Hkv) as [_ Hs]. apply Hs.
+    specialize (Hc kv Hkv). apply andb_true_iff in Hc as [_ Hc]. exact Hc.
+Qed.
+
 Definition cfg_ok (es : list (string * yv)) : bool := forallb (fun kv => json_conv (snd kv)) es.
-(* excluded class (F13f): an executor `config:` value holding a mapping inside a list, or NaN / Inf *)
-Definition config_clean (executor : yv) : bool :=
-  match executor with
-  | VMap m => forallb (fun kv => match kv with
-                                 | (VStr k, VMap cm) => if String.eqb k "config" then forallb (fun e => json_conv (snd e)) cm else true
-                                 | _ => true
-                                 end) m
-  | _ => true
-  end.
 
-Lemma config_entries_clean : forall cm es, config_entries cm = Ok es ->
-  forallb (fun e => json_conv (snd e)) cm = true -> cfg_ok es = true.
+Lemma parseExecutor_json : forall v ex, parseExecutor v = Ok ex -> cfg_ok (snd ex) = true.
 Proof.
-  induction cm as [|[k v] cm IH]; simpl; intros es H Hc.
-  - inversion H; reflexivity.
-  - destruct k; try discriminate. apply andb_true_iff in Hc as [H1 H2]. simpl in H1.
-    destruct (config_entries cm) as [| |rest]; simpl in H; try discriminate.
-    inversion H; subst. unfold cfg_ok; simpl. rewrite H1. exact (IH rest eq_refl H2).
-Qed.
-
-Lemma executor_entries_clean : forall m typ cfg t c,
-  executor_entries m typ cfg = Ok (t, c) -> cfg_ok cfg = true -> config_clean (VMap m) = true -> cfg_ok c = true.
-Proof.
-  induction m as [|[k v] m IH]; simpl; intros typ cfg t c H Hcfg Hm.
-  - inversion H; subst; exact Hcfg.
-  - destruct k; try discriminate. apply andb_true_iff in Hm as [Hkv Hm].
-    destruct (String.eqb s "type").
-    + destruct v; try discriminate. eapply IH; eauto.
-    + destruct (String.eqb s "config") eqn:Ek; [|discriminate]. destruct v; try discriminate.
-      destruct (config_entries m0) as [| |es] eqn:Ees; simpl in H; try discriminate.
-      eapply IH; [exact H | | exact Hm].
-      unfold cfg_ok. rewrite forallb_app. fold (cfg_ok cfg). rewrite Hcfg. simpl.
-      exact (config_entries_clean _ _ Ees Hkv).
-Qed.
-
-Lemma parseExecutor_clean : forall v ex, parseExecutor v = Ok ex -> config_clean v = true -> cfg_ok (snd ex) = true.
-Proof.
-  intros v ex H Hc. destruct v; simpl in H; try discriminate; try (inversion H; reflexivity).
+  intros v ex H. destruct v; simpl in H; try discriminate; try (inversion H; reflexivity).
   destruct (executor_entries m "" []) as [| |[t c]] eqn:E; simpl in H; try discriminate.
-  destruct (forallb _ c); [|discriminate]. inversion H; subst. simpl.
-  eapply executor_entries_clean; eauto.
+  destruct (forallb (fun kv => conv_ok (snd kv)) c) eqn:Ec; [|discriminate]. inversion H; subst. simpl.
+  unfold cfg_ok. apply forallb_forall. intros kv Hkv. rewrite forallb_forall in Ec. apply conv_ok_json, Ec, Hkv.
 Qed.
-
-Definition osd_clean (o : option stepDef) : bool := match o with Some sd => config_clean (sd_executor sd) | None => true end.
-Definition def_config_clean (d : definition) : bool :=
-  forallb osd_clean (d_steps d) && forallb (fun nh => osd_clean (snd nh)) (handler_defs (d_handlerOn d)).
 
 Lemma json_ok_all_steps : forall g, (forall s, In s (all_steps g) -> step_json_ok s = true) -> json_ok g = true.
 Proof.
@@ -659,19 +662,18 @@ Proof.
   rewrite H1. rewrite !H2; simpl; auto 6.
 Qed.
 
-Theorem build_serialisable_partial : forall o d base e g,
-  outcome (build cron sig_ok tokenize sh o d base e) = Ok g -> def_config_clean d = true ->
+(* the status of every accepted DAG marshals, and the live status endpoint of the agent does not reach its
+   nil *httpError path (before fix 667fb54: false for executor config holding a mapping inside a list or NaN / Inf) *)
+Theorem build_serialisable : forall o d base e g,
+  outcome (build cron sig_ok tokenize sh o d base e) = Ok g ->
   json_ok g = true /\ serve_status g = Ok tt.
 Proof.
-  intros o d base e g H Hc.
+  intros o d base e g H.
   assert (Hj : json_ok g = true).
-  { apply json_ok_all_steps. intros s Hin. unfold def_config_clean in Hc. apply andb_true_iff in Hc as [Hc1 Hc2].
-    destruct (all_steps_origin _ _ _ _ _ H s Hin) as (vars & def & Hb & Horigin).
+  { apply json_ok_all_steps. intros s Hin.
+    destruct (all_steps_origin _ _ _ _ _ H s Hin) as (vars & def & Hb & _).
     destruct (buildStep_ok_inv _ _ _ _ Hb) as (conds & fc & cwa & cmd & args & ex & sg & _ & _ & _ & _ & Hex & _ & _ & _ & _ & Hcfg & _).
-    unfold step_json_ok. rewrite Hcfg. apply (parseExecutor_clean _ _ Hex).
-    destruct Horigin as [Hd | (n & sd & Hn & ->)].
-    - rewrite forallb_forall in Hc1. exact (Hc1 _ Hd).
-    - rewrite forallb_forall in Hc2. exact (Hc2 _ Hn). }
+    unfold step_json_ok. rewrite Hcfg. exact (parseExecutor_json _ _ Hex). }
   split; [exact Hj|]. unfold serve_status. rewrite Hj. reflexivity.
 Qed.
 
